@@ -13,8 +13,8 @@ models `Univers/Text/Vers.lean` and `Univers/Text/Str.lean`, through the driver 
 (the range constructor sorts with the scheme's order, the model answers in text order).
 `raw:` is the answer for a scheme whose version class has no Layer-A model wired in the
 driver: every raw item is `star`, `<cmpr>:<hex text handed to version_class>` or `!<ExcName>`
-(the item itself is rejected); the harness then finishes the job of the loop with the REAL
-version class (first exception in item order wins, then the star/TypeError rule of the sort).
+(the item itself is rejected, or it is a star inside a list); the harness then finishes the job
+of the loop with the REAL version class (first exception in item order wins).
 
 Usage:  /venv/bin/python -m harness.corr_textvers [--n N] [--seed S] [--umodel PATH]
 Exit status 0 = no disagreement.
@@ -103,8 +103,6 @@ def finish_raw(ans):
         except Exception as e:  # noqa: BLE001
             return "err:" + type(e).__name__
         items.append("%s:%s" % (c, hx(str(v))))
-    if "star" in items and any(i != "star" for i in items):
-        return "err:TypeError"
     return canon(scheme, items)
 
 
@@ -249,6 +247,8 @@ SPECIAL = [
     "vers:npm/é", "vers:npm/1K", "İers:npm/1", "vers:npm/1.0 ", "vers:npm/1.0|1.0",
     "vers:npm/>1|<1", "vers:gem/1.0|*", "vers:pypi/1.0|*", "vers:maven/1.0|*", "vers:nuget/*|*",
     "vers:conan/|*|*", "vers:npm/=1.0", "vers:npm/==1.0", "vers:npm/=", "vers:npm/*|*",
+    "vers:npm/|*|", "vers:npm/||*||", "vers:npm/|", "vers:npm/||", "vers:npm/1.0|*junk", "vers:npm/*junk",
+    "vers:npm/|1.0|", "vers:npm/||1.0|2.0||", "vers:alpine/1.0|>2.0_rc1", "vers:alpine/*",
 ]
 
 
